@@ -84,6 +84,16 @@ pub mod biguint {
                 (self.data.len() % 8) as u8
             }
 
+            // R3c-shift-range: tz % 64 + 1 ranges over 1..=64, and 1u64 << 64 overflows
+            pub fn low_mask(&self, tz: u64) -> u64 {
+                (1u64 << (tz % 64 + 1)) - 1
+            }
+
+            // negative control: 63 - tz % 64 ranges over 0..=63
+            pub fn low_mask_ok(&self, tz: u64) -> u64 {
+                u64::MAX >> (63 - tz % 64)
+            }
+
             // R3c-digit-step: a borrow taken from one digit without propagation
             pub fn borrow_one(&mut self, at: usize) {
                 self.data[at] -= 1;
